@@ -161,8 +161,18 @@ def gen_cases(rng, tier):
         kind = rng.choice(["int", "str"])
         ngroups = rng.choice([2, 3])
         names = (INT_NAMES if kind == "int" else STR_NAMES)[:ngroups]
-        P = [(Fraction(10 * rng.randint(-20, 40) + g), names[g]) for g in [rng.randrange(ngroups) for _ in range(rng.randint(100, 120))]]
-        N = [(Fraction(10 * rng.randint(-20, 40) + g + 5), names[g]) for g in [rng.randrange(ngroups) for _ in range(rng.randint(100, 120))]]
+        if _ % 3 == 2:
+            # one group is itself at or above the single-pass switch in BOTH classes (by_group must still resample it with
+            # replacement, keeping its count), the others are small
+            gp = [0] * rng.randint(100, 112) + [rng.randrange(1, ngroups) for _i in range(rng.randint(4, 12))]
+            gn = [0] * rng.randint(100, 112) + [rng.randrange(1, ngroups) for _i in range(rng.randint(4, 12))]
+            rng.shuffle(gp)
+            rng.shuffle(gn)
+        else:
+            gp = [rng.randrange(ngroups) for _i in range(rng.randint(100, 120))]
+            gn = [rng.randrange(ngroups) for _i in range(rng.randint(100, 120))]
+        P = [(Fraction(10 * rng.randint(-20, 40) + g), names[g]) for g in gp]
+        N = [(Fraction(10 * rng.randint(-20, 40) + g + 5), names[g]) for g in gn]
         sc, ec = rng.choice(CONFIGS)
         vals = sorted(set(x for x, _ in P + N))
         cases.append({"pos": [enc(x) for x, _ in P], "neg": [enc(x) for x, _ in N], "pg": [l for _, l in P],
